@@ -161,6 +161,16 @@ PROPS["C09"] = {
     "assumptions": [],
 }
 
+PROPS["C13"] = {
+    "units": ["http_encoder_response"],
+    "kani": [],
+    "technique": "Verus contracts on the extracted real Encoder::response / update_head / Encoder::size: the wrap-or-pass-through decision as a postcondition over (body size, response head, requested coding)",
+    "level_text": "deductive proof, for every response head, body kind and requested coding, that a body is wrapped by a content encoder exactly when it is non-empty, carries no Content-Encoding yet, the status is none of 101/204/206, the coding is not identity and the codec is compiled in; that exactly then Content-Encoding is set to that coding, Vary: accept-encoding appended and chunking re-enabled, and otherwise the head is left untouched and the body passed through unchanged; that an encoding body reports size Stream (so a stale Content-Length is never sent)",
+    "level_note": "the codecs themselves (flate2, brotli, zstd) and the streaming state machine Encoder::poll_next (spawn_blocking, closures) are not under contract; HeaderMap is abstracted to the facts this function touches",
+    "not_decided": ["losslessness of gzip/deflate/br/zstd (libraries)", "Encoder::poll_next / Decoder::poll_next state machines (finish exactly once, termination)", "AcceptEncoding::negotiate (q-values, wildcards: HashSet + iterator adapters)", "the Compress middleware wiring", "request-body decoding (Decompress)"],
+    "assumptions": [],
+}
+
 _PENDING = "not claimed yet: contracts for this property are still under construction in this session"
 NOT_APPLICABLE = {("C%02d" % i): _PENDING for i in range(1, 20)}
 NOT_APPLICABLE["C06"] = "every clause is about instants (deadlines vs. arrival times, runtime timer ordering); no function contract expresses virtual time or scheduler ordering (DESIGN.md section 4 C06)"
